@@ -181,8 +181,8 @@ class Pending(InstructionGenerator):
 class BenignQueue(InstructionGenerator):
     """C18 workload: departures of charging vehicles and abandonment of the queue, nothing invalid."""
 
-    def __init__(self, seed: int, p_leave: float = 0.05, p_abandon: float = 0.02):
-        self.seed, self.p_leave, self.p_abandon = seed, p_leave, p_abandon
+    def __init__(self, seed: int, p_leave: float = 0.05, p_abandon: float = 0.02, p_resend: float = 0.0):
+        self.seed, self.p_leave, self.p_abandon, self.p_resend = seed, p_leave, p_abandon, p_resend
 
     @property
     def name(self) -> str:
@@ -198,6 +198,10 @@ class BenignQueue(InstructionGenerator):
                 out.append(IdleInstruction(v.id))
             elif n == "ChargeQueueing" and x < self.p_abandon:
                 out.append(IdleInstruction(v.id))
+            elif n == "ChargeQueueing" and x < self.p_abandon + self.p_resend:
+                # a stateless controller repeating "go and charge there" to a vehicle that is already waiting there
+                # (the built-in off-shift human driver logic does the same every step)
+                out.append(DispatchStationInstruction(v.id, v.vehicle_state.station_id, v.vehicle_state.charger_id))
         return self, tuple(out)
 
 
